@@ -36,6 +36,23 @@ Section Inv.
     exists sf st', sts b (tr_from t) = Some sf /\ sts b (tr_to t) = Some st' /\ tr_to t <> 0 /\
                    forall c, In c (map core_of st') <-> tcore sf (tr_symbol t) c.
 
+  (* the kernel of a state: the items a transition brought, or the start item *)
+  Definition is_kernel (it : item) : bool :=
+    negb (Nat.eqb (it_dot it) 0) || match it_rule it with None => true | Some _ => false end.
+  Definition kernel (st : state) : list item := filter is_kernel st.
+
+  Lemma reach_mono K K' it : incl K K' -> reach K it -> reach K' it.
+  Proof. intros Hi H. induction H as [it Hin|jt it _ IH Himp]; [apply reach_in, Hi, Hin|eapply reach_step; eauto]. Qed.
+
+  Lemma kernel_incl st st' : incl st st' -> incl (kernel st) (kernel st').
+  Proof. intros Hi x Hx. apply filter_In in Hx as (Hx & Hk). apply filter_In. split; [apply Hi, Hx|exact Hk]. Qed.
+
+  Lemma advK_kernel st x target : (forall y, In y (advK st x) -> In y target) -> incl (advK st x) (kernel target).
+  Proof.
+    intros Hin y Hy. apply filter_In. split; [apply Hin, Hy|]. apply advK_dot in Hy. unfold is_kernel.
+    destruct (Nat.eqb_spec (it_dot y) 0) as [E|_]; [lia|reflexivity].
+  Qed.
+
   (* the symbol of a transition is what follows the dot of an item of its source *)
   Definition sym_ok (b : builder) (t : transition) : Prop :=
     exists sf it, sts b (tr_from t) = Some sf /\ In it sf /\ next_sym it = Some (tr_symbol t).
@@ -55,7 +72,8 @@ Section Inv.
                            tr_from t1 = tr_from t2 -> tr_symbol t1 = tr_symbol t2 -> tr_to t1 = tr_to t2;
     bi_uniq : forall i j si sj, sts b i = Some si -> sts b j = Some sj -> same_cores si sj -> i = j;
     bi_zero : exists st0, sts b 0 = Some st0 /\ In start_item st0 /\ forall it, In it st0 -> it_dot it = 0;
-    bi_sym : forall t, In t (b_transitions b) -> sym_ok b t
+    bi_sym : forall t, In t (b_transitions b) -> sym_ok b t;
+    bi_reach : forall i st it, sts b i = Some st -> In it st -> reach (kernel st) it
   }.
 
   Definition Cov (b : builder) (ex : list nat) : Prop :=
@@ -153,7 +171,7 @@ Section Inv.
     (forall k, length (b_states b) <= k -> k < length (b_states b') -> In k (b_queue b')).
   Proof.
     intros HB HT Hwf (k & Hk & Hkd) H. unfold enqueue_state_if_needed in H.
-    destruct HB as [Hst Hq Htr Hdet Huniq (st0 & Hs0 & Hstart & Hdot0) Hsym].
+    destruct HB as [Hst Hq Htr Hdet Huniq (st0 & Hs0 & Hstart & Hdot0) Hsym Hrch].
     assert (Hnot0 : forall s0, sts b 0 = Some s0 -> ~ same_cores target s0).
     { intros s0 Hs Hsc. unfold sts in *. rewrite Hs0 in Hs. injection Hs as <-.
       assert (Hin : In (core_of k) (map core_of st0)) by (apply Hsc, in_map, Hk).
@@ -202,6 +220,11 @@ Section Inv.
           -- apply (Huniq i1 i2 s1 s2 H1 H2 Hc12).
         * exists st0. rewrite Hnth. destruct (Nat.eqb_spec j0 0) as [E|_]; [contradiction|]. auto.
         * intros t Ht. eapply sym_ok_ext; [exact Hext|apply Hsym, Ht].
+        * intros i s it Hs Hit. rewrite Hnth in Hs. destruct (Nat.eqb_spec j0 i) as [<-|Hne]; [|apply (Hrch i s it Hs Hit)].
+          injection Hs as <-. apply Hin' in Hit as [Hit|Hit].
+          -- apply (reach_mono (kernel e)); [apply kernel_incl; intros y Hy; apply Hin'; left; exact Hy|apply (Hrch j0 e it Hn Hit)].
+          -- apply (reach_mono (advK st x)); [|apply (tg_reach _ _ _ HT), Hit].
+             apply advK_kernel. intros y Hy. apply Hin'. right. apply (tg_reach _ _ _ HT), reach_in, Hy.
       + exists st'. unfold sts; cbn [b_states]. rewrite Hnth, Nat.eqb_refl. split; [reflexivity|].
         split; [intros y Hy; apply Hin'; right; exact Hy|]. eapply same_cores_trans; eauto.
       + cbn [b_queue]. intros i Hi. destruct added; [apply in_app_or in Hi as [Hi|[<-|[]]]; auto|auto].
@@ -234,6 +257,9 @@ Section Inv.
           -- apply (Huniq i1 i2 s1 s2 H1 H2 Hc12).
         * exists st0. rewrite Hnth. destruct (Nat.eqb_spec 0 n) as [E|_]; [congruence|]. auto.
         * intros t Ht. eapply sym_ok_ext; [exact Hext|apply Hsym, Ht].
+        * intros i s it Hs Hit. rewrite Hnth in Hs. destruct (Nat.eqb_spec i n) as [->|Hne]; [|apply (Hrch i s it Hs Hit)].
+          injection Hs as <-. apply (reach_mono (advK st x)); [|apply (tg_reach _ _ _ HT), Hit].
+          apply advK_kernel. intros y Hy. apply (tg_reach _ _ _ HT), reach_in, Hy.
       + exists target. unfold sts; cbn [b_states]. rewrite Hnth, Nat.eqb_refl. split; [reflexivity|]. split; [intros y Hy; exact Hy|apply same_cores_refl].
       + cbn [b_queue]. intros i Hi. apply in_app_or in Hi as [Hi|[<-|[]]]; auto.
       + cbn [b_states b_queue]. rewrite app_length. cbn [length]. split; [lia|]. intros k0 H1 H2.
@@ -274,7 +300,7 @@ Section Inv.
       symmetry. apply Hcj. }
     split; [exact Hext|]. split; [|split].
     - (* BInv b2 *)
-      destruct HB1 as [Hst1 Hqq1 Htrr1 Hdet1 Huniq1 Hz1 Hsym1]. split.
+      destruct HB1 as [Hst1 Hqq1 Htrr1 Hdet1 Huniq1 Hz1 Hsym1 Hrch1]. split.
       + exact Hst1.
       + exact Hqq1.
       + intros t [<-|Ht]; [exact Ht0|]. destruct (Htrr1 t Ht) as (sf & st' & A & B & C & D). exists sf, st'. auto.
@@ -295,6 +321,7 @@ Section Inv.
       + exact Hz1.
       + intros t [<-|Ht]; [|destruct (Hsym1 t Ht) as (sf & it & A & B & C); exists sf, it; auto].
         exists sti1, it0. unfold t0. cbn [tr_from tr_symbol]. split; [exact Hsi1|]. split; [apply Hinci, Hit0|exact Hn0].
+      + exact Hrch1.
     - (* Cov b2 [i] *)
       intros k Hk1 Hk2 Hk3. cbn [b_states b_queue] in Hk1, Hk2.
       destruct (Nat.lt_ge_cases k (length (b_states b))) as [Hlt|Hge].
@@ -342,7 +369,7 @@ Section Inv.
       apply bind_ok in H as (syms & Hsy & H). apply bind_ok in H as (b1 & Ht & H).
       set (b0 := {| b_states := b_states b; b_transitions := b_transitions b; b_queue := q |}) in *.
       assert (HB0 : BInv b0).
-      { destruct HB as [A B C D E F G]. split; auto. intros k Hk. apply B. rewrite Eq. right. exact Hk. }
+      { destruct HB as [A B C D E F G H']. split; auto. intros k Hk. apply B. rewrite Eq. right. exact Hk. }
       assert (HC0 : Cov b0 [i]).
       { intros k Hk1 Hk2 Hk3. cbn [b_states b_queue] in *.
         assert (Hc : cov_at b k). { apply HC; [exact Hk1| |intros []]. rewrite Eq. intros [<-|Hin]; [apply Hk3; left; reflexivity|contradiction]. }
@@ -384,6 +411,8 @@ Section Inv.
     - intros i j si sj Hi Hj _. destruct i as [|[|i]]; try discriminate. destruct j as [|[|j]]; try discriminate. reflexivity.
     - exists start. split; [reflexivity|]. split; [apply Hreach, reach_in; left; reflexivity|exact Hdot].
     - intros t [].
+    - intros i st it Hst Hit. destruct i as [|[|i]]; try discriminate. injection Hst as <-.
+      apply (reach_mono [start_item]); [|apply Hreach, Hit]. intros y [<-|[]]. apply filter_In. split; [apply Hreach, reach_in; left; reflexivity|reflexivity].
   Qed.
 
   Theorem build_spec fuel start b :
